@@ -70,6 +70,12 @@ var failTemplates = []failTpl{
 	{"error-printing-first", "lang-error", func(_ *core.Rng, _ []string) string {
 		return `(() => { println("about to fail"); hh := x => { println("in hh", x); error("late") }; hh(1) })()`
 	}},
+	{"break-outside-loop", "lang-error", func(r *core.Rng, _ []string) string {
+		return core.Pick(r, []string{`break`, `continue`, `if true { break }`})
+	}},
+	{"break-in-lambda-outside-loop", "lang-error", func(r *core.Rng, _ []string) string {
+		return core.Pick(r, []string{`(() => { continue })()`, `(() => { if true { break }; 1 })()`, `(() => { hh := x => { break }; hh(1) + 1 })()`, `for 2 { (() => { break })() }`})
+	}},
 	{"div0-in-lambda", "panic:runtime", func(_ *core.Rng, _ []string) string { return `(() => { z9 := 0; 1 / z9 })()` }},
 	{"negshift-in-lambda", "panic:runtime", func(_ *core.Rng, _ []string) string { return `(() => { z9 := 0 - 1; 1 << z9 })()` }},
 	{"div0-in-nested-call-in-loop", "panic:runtime", func(r *core.Rng, _ []string) string {
